@@ -143,9 +143,3 @@ Definition explore_all (cfg : config) (ls : list label) (expect : state -> bool)
 Definition root_failed_and_cyc (cfg : config) (ls : list label) (s : state) : bool :=
   is_failed (st s (c_root cfg)) && existsb (has_cyc s) ls && Nat.eqb (cap s) (c_limit cfg).
 
-Definition t1 := Eval vm_compute in explore_all (cycle2 1) [0;1] (root_failed_and_cyc (cycle2 1) [0;1]) 200000.
-Print t1.
-Definition t2 := Eval vm_compute in explore_all (cycle2 2) [0;1] (root_failed_and_cyc (cycle2 2) [0;1]) 200000.
-Print t2.
-Definition t3 := Eval vm_compute in explore_all selfloop [0] (root_failed_and_cyc selfloop [0]) 200000.
-Print t3.
